@@ -1485,6 +1485,15 @@ class SpaceManager(SharedSpaceOperations):
     def del_cells_formula(self, cells):
         self.set_cells_formula(cells, NULL_FORMULA)
 
+    def set_cells_allow_none(self, cells, value):
+        """Set allow_none of ``cells`` and of the cells derived from it"""
+        cells.set_defined()
+        cells.allow_none = value
+        for space in self._get_subs(cells.parent):
+            c = space.cells[cells.name]
+            if c.is_derived() and c.defined_bases[0] is cells:
+                c.allow_none = value
+
     def _check_subs_relrefs(self, space, name, value, refmode):
 
         # Check if relative ref is possible when refmode is 'relative'
